@@ -466,6 +466,19 @@ func c18Gen(r *rand.Rand, tier string) []Case {
 		tags = append(tags, fmt.Sprintf("indent%d", indent))
 		cases = append(cases, Case{ID: fmt.Sprintf("v%d", i), Input: sx.L("val", wvOf(v), sx.A(indent)), Tags: tags, Human: safeSDL(v)})
 	}
+	// wide values: far more containers than the nesting bound, side by side (depth 2): the reader's depth
+	// counter has to come back down after every one of them
+	for wi, indent := range []int{-1, 0} {
+		if tier != "thorough" {
+			break // the writer model is quadratic in the width: the quick tier sends such texts to the reader only (C03)
+		}
+		wide := make([]interface{}, 0, 10050)
+		for i := 0; i < 10050; i++ {
+			wide = append(wide, map[string]interface{}{"a": int64(i % 7)})
+		}
+		cases = append(cases, Case{ID: fmt.Sprintf("wide%d", wi), Input: sx.L("val", wvOf(wide), sx.A(indent)),
+			Tags: []string{"container", "wide", "nontrivial", fmt.Sprintf("indent%d", indent)}, Human: "[{a: 0} {a: 1} ... 10050 objects]"})
+	}
 	return cases
 }
 
@@ -600,7 +613,13 @@ func c03Entry(entry string, data string, mode string) (class string, detail sx.S
 		w.nodes[2] = &gnode{gotype: 20, fields: map[int]behav{3: {kind: "const", v: sx.L("str", "1")}, 1: {kind: "const", v: sx.L("node", "2")},
 			4: {kind: "const", v: sx.L("list", sx.L("node", "2"), "nil")}}}
 		root := ggql.NewRoot(&execSchemaObj{w: w, q: 1, m: -1})
-		_ = root.ParseString("type Query { f1: T20 f2(a1: Int!, a2: [String], a3: T40, a4: T41): Int } type T20 { f3: String f1: T20 f4: [T20] } input T40 { a1: Int! a2: [T40] } input T41 { n: Int = 1 next: T41 = {} list: [T41] = [{}] }")
+		w.nodes[3] = &gnode{gotype: 21, fields: map[int]behav{7: {kind: "echo", k: 2}}}
+		w.nodes[2].fields[7] = behav{kind: "echo", k: 2}
+		w.nodes[1].fields[5] = behav{kind: "const", v: sx.L("node", "2")}
+		w.nodes[1].fields[6] = behav{kind: "const", v: sx.L("node", "3")}
+		_ = root.ParseString("type Query { f1: T20 f2(a1: Int!, a2: [String], a3: T40, a4: T41): Int f5: T28 f6: T28 } interface T28 { f7(a1: Int, a2: Int): Int } type T20 implements T28 { f3: String f1: T20 f4: [T20] f7(a1: Int, a2: Int): Int } type T21 implements T28 { f7(a1: Int, a2: Int): Int } input T40 { a1: Int! a2: [T40] } input T41 { n: Int = 1 next: T41 = {} list: [T41] = [{}] }")
+		_ = root.RegisterType(newNodeObj(w, -1, 20, true), "T20")
+		_ = root.RegisterType(newNodeObj(w, -1, 21, true), "T21")
 		// request parsing and printing of whatever the reader returned, then resolution
 		vars := map[string]interface{}{"v1": 1, "v2": nil, "v3": []interface{}{"x", 2}}
 		var res map[string]interface{}
@@ -717,6 +736,10 @@ fragment F on T20 { f3 f1 { f3 } }`, `{ f1 { f3 f4 { f3 } } }`, `mutation M { f1
 		`subscription S { f1 { f3 } }`, `{ f2(a1: [1], a2: {a: 1}, a3: E) }`, `{ f2(a1: 1, a3: {a1: 1, a2: [{a1: $v1}, null]}) }`,
 		// an input type that reaches itself through defaulted fields: given empty, as a literal, a variable, a default
 		`{ f2(a1: 1, a4: {}) }`, `query($v: T41 = {}) { f2(a1: 1, a4: $v) }`, `{ f2(a1: 1, a4: {next: {list: [{}]}}) }`,
+		// a cycle that the first fragment (in name order) only leads into
+		`{f1{...E}} fragment E on T20 { f3 ...L } fragment L on T20 { f3 ...L }`, `{f1{...A}} fragment A on T20 { ...M } fragment M on T20 { f1 { ...N } } fragment N on T20 { ... on T20 { ...M } }`,
+		// one selection with a given and an omitted argument, evaluated in two object types
+		`{ f5 { ...S } f6 { ...S } } fragment S on T28 { f7(a2: 2) }`, `{ f5 { f7(a1: 1) } f6 { f7(a2: 2) ... on T21 { f7(a1: 3) } } }`,
 		// fragments that reach themselves only through an inline fragment, a field, a list, one another
 		`{ ...A } fragment A on Query { f1 { f3 } ... on Query { ...A } }`, `{f1{...F}} fragment F on T20 { f3 ... { ...F } }`,
 		`{f1{...F}} fragment F on T20 { f4 { ... on T20 { f1 { ...F } } } }`, `{f1{...F}} fragment F on T20 { ... on T20 { ...G } } fragment G on T20 { ... { ...F } }`},
@@ -870,6 +893,10 @@ func c03Gen(r *rand.Rand, tier string) []Case {
 		add("value", strings.Repeat("{a:", d)+"1"+strings.Repeat("}", d), false, "nesting-bound", "nontrivial")
 		add("value", strings.Repeat("[{a:", d/2)+"[]"+strings.Repeat("}]", d/2), false, "nesting-bound", "nontrivial")
 	}
+	// wide values: more containers than the nesting bound, side by side: the depth counter comes back down
+	add("value", "["+strings.Repeat("{a:1}", 10050)+"]", false, "wide", "nontrivial")
+	add("value", "["+strings.Repeat("[1]", 10050)+"]", false, "wide", "nontrivial")
+	add("value", "{a:"+strings.Repeat("{b:[]} ", 10050)+"}", false, "wide", "nontrivial")
 	// nesting bombs and long runs, in child processes (a stack overflow is fatal, not a panic)
 	depths := []int{1000, 100000}
 	if tier == "thorough" {
